@@ -387,8 +387,8 @@ class GMM:
         like: array of shape (n_samples,self.k):
               the likelihood of each item being in each class
         """
-        sl = np.maximum(tiny, np.sum(like, 1))
-        nl = (like.T / sl).T
+        sl = np.sum(like, 1) + tiny
+        nl = ((like.T + tiny / like.shape[1]) / sl).T
         return np.sum(nl, 0)
 
     def update(self, x, l):
@@ -628,8 +628,8 @@ class GMM:
         from numpy.linalg import pinv
         tiny = 1.e-15
         pop = self.pop(like)
-        sl = np.maximum(tiny, np.sum(like, 1))
-        like = (like.T / sl).T
+        sl = np.sum(like, 1) + tiny
+        like = ((like.T + tiny / like.shape[1]) / sl).T
 
         # shrinkage,weights,dof
         self.weights = self.prior_weights + pop
